@@ -1247,6 +1247,28 @@ class Pictures(Component):
         h, cls, f = parse_outcome(impl)
         return ['outcome=' + (h + (':' + (f.get('mime', '') if h == 'ok' else cls)))]
 
+def _fnv_tag(b):
+    """the harness's `#len:fnv1a64` rendering of a long byte string"""
+    h = 0xcbf29ce484222325
+    for x in b:
+        h = ((h ^ x) * 0x100000001b3) & 0xFFFFFFFFFFFFFFFF
+    return f'#{len(b)}:{h:016x}'
+
+def _pad_limit_cases():
+    """the 24-bit padding limit of `grow_padding`: an APPLICATION block of 13 bytes is removed in front of a PADDING block whose
+    size sweeps 2^24-1-13 ± 2, so the grown padding would be 2^24-3 … 2^24+1 (in place up to 2^24-1, rebuilt beyond)"""
+    si = bytes.fromhex('10001000000000000000000ac442f0000000') + bytes(16)
+    app = (7).to_bytes(4, 'big') + bytes(5)
+    out = []
+    for d in (-2, 0, 1, 2):
+        P = (1 << 24) - 14 + d
+        vc = bytes(8)   # empty vendor string, no fields: moves forward when the APPLICATION block goes
+        m = (b'fLaC' + bytes([0]) + (34).to_bytes(3, 'big') + si + bytes([2]) + len(app).to_bytes(3, 'big') + app
+             + bytes([4]) + len(vc).to_bytes(3, 'big') + vc + bytes([0x81]) + P.to_bytes(3, 'big') + bytes(P))
+        fr = b'\xff\xf8\x01\x02'
+        out.append(f'update file={(m + fr).hex()} edits=apprm frames={len(fr)}')
+    return out
+
 class UpdateHist(Component):
     name = 'update'
     ops = ('update',)
@@ -1260,8 +1282,10 @@ class UpdateHist(Component):
             slack = (pads[0] if pads else rng.choice([0, 10, 40]))
             edits = '|'.join(metagen.edit_script(rng, slack) for _ in range(rng.choice([1, 1, 2, 4])))
             out.append(f'update file={(meta + frames).hex()} edits={edits} frames={len(frames)}')
-        if tier == 'thorough':
-            # the 24-bit limit: padding that would have to grow past it, blocks that exceed it
+        if tier == 'thorough' or boost > 1:
+            # the 24-bit limit: padding that would have to grow past it, blocks that exceed it (16 MiB files: thorough tier and
+            # the escalated search after a broken obligation only)
+            out += _pad_limit_cases()
             meta, frames = metagen.small_file(rng, [16777000])
             out.append(f'update file={(meta + frames).hex()} edits=app:0000002a:5|apprm,padset:16777215|padset:3,vrm|pic:3:16777300 frames={len(frames)}')
         return out
@@ -1281,6 +1305,9 @@ class UpdateHist(Component):
                 return ('update:frames-disturbed', 'the bytes from the first audio frame onward changed')
             if all(s.startswith('ERR') for s in steps) and final != file0:
                 return ('update:failed-edit-touched-file', 'every step failed but the file changed')
+        elif all(s.startswith('ERR') for s in steps) and fin != _fnv_tag(file0):
+            # long files are reported as length + FNV-1a hash
+            return ('update:failed-edit-touched-file', 'every step failed but the file changed')
         for i, s_ in enumerate(steps):
             if s_ == 'inplace' and lens[i + 1] != lens[i]:
                 return ('update:inplace-length', f'step {i} reported in-place but the length went {lens[i]} -> {lens[i + 1]}')
@@ -1318,14 +1345,21 @@ class Faults(Component):
             for k in kinds:
                 for at in range(0, 30 if tier == 'quick' else 120):
                     out.append(f'blocksw list={bl} failat={at} fkind={k}')
+            for k in (1, 3, 7):
+                out.append(f'blocksw list={bl} failat=0 fkind=shortfrom:{k}')
         for _ in range(max(2, nscen // 2)):
             ch = rng.choice([1, 2]); bps = rng.choice([8, 16]); n = rng.choice([20, 70, 200])
             pcm, _shape = gen.pcm_multi(rng, n, ch, bps)
             base = f'wr fe={rng.choice(["byte", "sample", "chan"])} ch={ch} bps={bps} rate=44100 bs={rng.choice([16, 32])} pcm={gen.join(pcm)} chunks=- ref=1 endian=le'
-            for k in kinds:
+            for k in ['perm', 'once', 'intr', 'short:1', 'short:3']:
                 for only in ('', 'w', 'f', 's'):
                     for at in range(0, 25 if tier == 'quick' else 120):
                         out.append(base + f' failat={at} fkind={k}' + (f' fonly={only}' if only else ''))
+            # a sink that accepts at most k bytes per call from some call on: every byte still arrives, so the file must be
+            # the fault-free one
+            for k in (1, 2, 3, 7):
+                for at in (0, 1, 2, 5, 11):
+                    out.append(base + f' failat={at} fkind=shortfrom:{k} fonly=w')
         return out
     def oracle(self, case, impl, profile):
         op, cf = parse_case(case)
@@ -1343,8 +1377,10 @@ class Faults(Component):
         if op == 'blocksw':
             if h == 'ok' and f.get('complete') != '1':
                 return (f'faults:write_blocks:success-without-delivery:{cf.get("fkind")}', f'write_blocks reported success but the sink holds an incomplete result (failure at call {cf["failat"]})')
-        if op == 'wr' and h == 'ok' and f.get('tripped') in ('1', 'true') and perm and f.get('sameasref') != 'true':
-            return ('faults:encode:success-without-delivery', f'encode+finalize reported success although call {cf["failat"]} failed permanently and the file differs from the fault-free one')
+        if op == 'wr' and h == 'ok' and f.get('tripped') in ('1', 'true') and f.get('sameasref') != 'true':
+            # whatever the kind of failure (permanent, transient, interrupted, short write): success means that the complete,
+            # valid result reached the stream, i.e. the bytes are those of the fault-free run
+            return (f'faults:encode:success-without-delivery:{cf.get("fkind")}', f'encode+finalize reported success although call {cf["failat"]} failed ({cf.get("fkind")}) and the file differs from the fault-free one')
         return None
     def nontrivial(self, case, impl):
         h, cls, f = parse_outcome(impl)
